@@ -8,6 +8,8 @@
             final(self).read.idx() <= old(self).read.idx() + 1,
             final(self).read.idx() >= old(self).read.idx(),
             old(self).read.idx() <= old(self).read.data().len() ==> final(self).read.idx() <= old(self).read.data().len(),
+            // every error is made by Parser::error: positioned inside the input (C20)
+            res.is_err() ==> err_ok(res->Err_0, old(self).read.data()),
 //@end
 
 //@extract file=src/parser.rs impl="Parser<R>" fn=skip_exponent
@@ -18,6 +20,8 @@
             res.is_ok() <==> exp_end(old(self).read.data(), old(self).read.idx() as int).is_some(),
             res.is_ok() ==> final(self).read.idx() == exp_end(old(self).read.data(), old(self).read.idx() as int).unwrap(),
             final(self).read.idx() <= old(self).read.data().len(),
+            // every error is made by Parser::error: positioned inside the input (C20)
+            res.is_err() ==> err_ok(res->Err_0, old(self).read.data()),
 //@loop 1
             invariant self.pinv(), self.same_doc(old(self)), self.same_cache(old(self)), self.read.idx() >= old(self).read.idx(),
               self.read.idx() <= self.read.data().len(),
@@ -35,6 +39,8 @@
             res.is_ok() <==> number_end(old(self).read.data(), old(self).read.idx() - 1).is_some(),
             res.is_ok() ==> final(self).read.idx() == number_end(old(self).read.data(), old(self).read.idx() - 1).unwrap(),
             final(self).read.idx() <= old(self).read.data().len(),
+            // every error is made by Parser::error: positioned inside the input (C20)
+            res.is_err() ==> err_ok(res->Err_0, old(self).read.data()),
 //@loop 1
             invariant self.pinv(), self.same_doc(old(self)), self.same_cache(old(self)), self.read.idx() >= old(self).read.idx(),
                 self.read.idx() <= self.read.data().len(),
@@ -124,6 +130,8 @@
             res.is_ok() ==> final(self).read.idx() == number_end(old(self).read.data(), old(self).read.idx() - 1).unwrap()
                 && str_bytes(res.unwrap()) == old(self).read.data().subrange(old(self).read.idx() - 1, final(self).read.idx() as int),
             final(self).read.idx() <= old(self).read.data().len(),
+            // every error is made by Parser::error: positioned inside the input (C20)
+            res.is_err() ==> err_ok(res->Err_0, old(self).read.data()),
 //@before /let end =/
         proof { lemma_number_end_bounds(self.read.data(), start as int); }
 //@end
